@@ -74,7 +74,7 @@ def gen_basisset(rng, tier):
     return out
 
 
-def write_nwchem(bs, rng, header, style_e, style_c):
+def write_nwchem(bs, rng, header, style_e, style_c, inner=False):
     lines = []
     if header == 1:
         lines.append('BASIS "ao basis" PRINT')
@@ -93,6 +93,8 @@ def write_nwchem(bs, rng, header, style_e, style_c):
             lines.append("%s    %s" % (el, lab))
             etxt, ctxt = [], []
             for e, row in zip(sh["e"], sh["k"]):
+                if inner and rng.random() < 0.15:
+                    lines.append("# comment inside a primitive block")
                 et = fmt_num(e, style_e)
                 ct = [fmt_num(c, style_c) for c in row]
                 lines.append("      %s      %s" % (et, "      ".join(ct)))
@@ -109,7 +111,7 @@ def write_nwchem(bs, rng, header, style_e, style_c):
     return "\n".join(lines) + "\n", expect
 
 
-def write_gbs(bs, rng, header, style_e, style_c, near_equal=None):
+def write_gbs(bs, rng, header, style_e, style_c, near_equal=None, inner=False):
     lines = []
     if header == 1:
         lines.append("! generated basis")
@@ -133,6 +135,8 @@ def write_gbs(bs, rng, header, style_e, style_c, near_equal=None):
                 lines.append("%s   %d   1.00" % (lab, K))
                 etxt, ctxt = [], []
                 for e, row in zip(es, ks):
+                    if inner and rng.random() < 0.15:
+                        lines.append("! comment inside a primitive block" if rng.random() < 0.7 else "")
                     et = fmt_num(e, style_e)
                     ct = [fmt_num(c, style_c) for c in row]
                     lines.append("      %s      %s" % (et, "      ".join(ct)))
@@ -204,7 +208,7 @@ def gen_cases(tier, seed):
     for i in range(n):
         cases.append({"i": i, "seed": [seed, tier, i], "header": [0, 1, 2, 6][i % 4], "fmt": ["nwchem", "gbs"][(i // 4) % 2],
                       "style_e": ["plain", "E", "D", "dot"][(i // 8) % 4], "style_c": ["plain", "dot", "E", "D"][(i // 2) % 4],
-                      "near_equal": (i % 12 == 5), "classes": ["hdr:%d" % [0, 1, 2, 6][i % 4], "fmt:" + ["nwchem", "gbs"][(i // 4) % 2]], "cost": 1})
+                      "near_equal": (i % 12 == 5), "inner": (i % 3 == 1), "classes": ["hdr:%d" % [0, 1, 2, 6][i % 4], "fmt:" + ["nwchem", "gbs"][(i // 4) % 2]], "cost": 1})
     return cases
 
 
@@ -224,7 +228,7 @@ def run_case(case):
     bs = gen_basisset(rng, None)
     header = case["header"]
     if case["fmt"] == "nwchem":
-        text, expect = write_nwchem(bs, rng, header, case["style_e"], case["style_c"])
+        text, expect = write_nwchem(bs, rng, header, case["style_e"], case["style_c"], inner=case.get("inner", False))
         parser, what = parse_nwchem, "parse_nwchem"
     else:
         if case["near_equal"]:
@@ -239,13 +243,13 @@ def run_case(case):
                             {"kind": "L", "ls": [l], "e": [float(x) for x in e2], "k": [[float(rng.normal() + 2)] for _ in range(K)]}] + el["shells"][:2]
             classes.append("gbs:near-equal-exponents")
             case = dict(case, style_e="E")
-        text, expect = write_gbs(bs, rng, header, case["style_e"], case["style_c"])
+        text, expect = write_gbs(bs, rng, header, case["style_e"], case["style_c"], inner=case.get("inner", False))
         parser, what = parse_gbs, "parse_gbs"
     if any(sh["kind"] == "SP" for e in bs for sh in e["shells"]):
         classes.append("shell:SP")
     if any(len(sh["k"][0]) > 1 and sh["kind"] != "SP" for e in bs for sh in e["shells"]):
         classes.append("shell:generalized")
-    classes += ["nel:%d" % len(bs), "num:%s/%s" % (case["style_e"], case["style_c"])]
+    classes += ["nel:%d" % len(bs), "num:%s/%s" % (case["style_e"], case["style_c"])] + (["comments-inside-blocks"] if case.get("inner") else [])
     # the SAME path is rewritten with a different basis set for every case of this worker process (a result that
     # depends on anything but the file content - a cache keyed on the path, say - shows as a mismatch)
     path = os.path.join(os.environ.get("TMPDIR", "/tmp"), "vmon-c18-%d.%s" % (os.getpid(), case["fmt"]))
